@@ -46,6 +46,8 @@ type fullCfg struct {
 	Block bool `json:"block_on_overflow,omitempty"`
 	// ZeroBackoff: retry_on_failure::initial_interval 0 - a failed attempt is retried at once (unless shutting down)
 	ZeroBackoff bool `json:"zero_backoff,omitempty"`
+	// CloseFails: closing the storage client reports an error (the queue's Shutdown then returns one)
+	CloseFails bool `json:"storage_close_fails,omitempty"`
 }
 
 type fullProdKey struct{}
@@ -154,6 +156,7 @@ func fullConfig(tp *simkit.Tape, prop string) fullCfg {
 		c.Wait = false
 	}
 	c.ZeroBackoff = c.Retry && tp.Chance(1, 8)
+	c.CloseFails = c.Persistent && tp.Chance(1, 5)
 	if !c.NoQueue && prop != "C05" && tp.Chance(1, 4) {
 		c.Block = true
 		switch c.Sizer {
@@ -245,6 +248,10 @@ func runFull(r *simkit.Run, prop string) {
 		defer func() { queuebatch.VerifYield = nil }()
 	}
 	inc := s.disk.NewIncarnation(1)
+	inc.FailClose = cfg.CloseFails
+	if cfg.CloseFails {
+		r.Count("fault.storage_close_error")
+	}
 	exp, err := s.build(inc)
 	if err != nil {
 		panic(err)
